@@ -797,8 +797,10 @@ fn main() {
         Some("C02") | Some("C10") | Some("C11") | Some("C04") => vec!["reqrep"],
         _ => vec!["pubsub", "reqrep"],
     };
+    // VERIF_SEED selects which block of 4000 schedules is explored (1 = the default block)
+    let block: u64 = std::env::var("VERIF_SEED").ok().and_then(|v| v.parse::<u64>().ok()).unwrap_or(1).max(1) - 1;
     for fam in fams {
-        for seed in 1..=4000u64 {
+        for seed in (block * 4000 + 1)..=(block * 4000 + 4000) {
             if let Err((e, props, log)) = run_one(fam, seed) {
                 // a panic or a busy loop concerns every router property; otherwise only the property the oracle states
                 let general = props.contains("C08") || props.contains("C09");
